@@ -143,6 +143,92 @@ fn convert_triple<'a>(
     )))
 }
 
+/// A [`TriplesFormatter`] wrapper for RDF/XML formatters,
+/// refusing (with an error) the triples that can not be written as well-formed RDF/XML:
+/// those whose predicate can not be split into a namespace and an XML name,
+/// or is a term reserved by the RDF/XML syntax,
+/// and those whose literal contains characters not allowed in XML.
+pub struct RdfXmlGuard<TF>(pub TF);
+
+impl<TF> TriplesFormatter for RdfXmlGuard<TF>
+where
+    TF: TriplesFormatter<Error = std::io::Error>,
+{
+    type Error = std::io::Error;
+
+    fn format(&mut self, triple: &RioTriple<'_>) -> Result<(), Self::Error> {
+        let invalid = |msg: String| std::io::Error::new(std::io::ErrorKind::InvalidInput, msg);
+        let p = triple.predicate.iri;
+        let local = p
+            .rfind(|c| !is_xml_name_char(c))
+            .map_or(p, |pos| &p[pos..])
+            .trim_start_matches(|c| !is_xml_name_start_char(c));
+        if local.is_empty() {
+            return Err(invalid(format!(
+                "RDF/XML can not express predicate <{p}> (it does not end with an XML name)"
+            )));
+        }
+        if let Some(rdf_local) = p.strip_prefix(sophia_api::ns::rdf::PREFIX.as_str()) {
+            if RDFXML_RESERVED.contains(&rdf_local) {
+                return Err(invalid(format!(
+                    "RDF/XML can not express predicate <{p}> (reserved by its syntax)"
+                )));
+            }
+        }
+        if let RioTerm::Literal(
+            Literal::Simple { value }
+            | Literal::LanguageTaggedString { value, .. }
+            | Literal::Typed { value, .. },
+        ) = triple.object
+        {
+            if let Some(c) = value.chars().find(|c| !is_xml_char(*c)) {
+                return Err(invalid(format!(
+                    "RDF/XML can not express character {c:?} in literal {value:?}"
+                )));
+            }
+        }
+        self.0.format(triple)
+    }
+}
+
+/// Local names of the RDF namespace that can not be used as property elements
+/// (or, for `li`, that would be read back as another IRI)
+const RDFXML_RESERVED: [&str; 12] = [
+    "RDF",
+    "ID",
+    "about",
+    "parseType",
+    "resource",
+    "nodeID",
+    "datatype",
+    "Description",
+    "aboutEach",
+    "aboutEachPrefix",
+    "bagID",
+    "li",
+];
+
+// XML 1.0 production [2]
+const fn is_xml_char(c: char) -> bool {
+    matches!(c, '\t' | '\n' | '\r' | ' '..='\u{D7FF}' | '\u{E000}'..='\u{FFFD}' | '\u{10000}'..)
+}
+
+// XML 1.0 production [4], without ':' (see Namespaces in XML)
+const fn is_xml_name_start_char(c: char) -> bool {
+    matches!(c,
+        'A'..='Z' | '_' | 'a'..='z'
+        | '\u{C0}'..='\u{D6}' | '\u{D8}'..='\u{F6}' | '\u{F8}'..='\u{2FF}'
+        | '\u{370}'..='\u{37D}' | '\u{37F}'..='\u{1FFF}' | '\u{200C}'..='\u{200D}'
+        | '\u{2070}'..='\u{218F}' | '\u{2C00}'..='\u{2FEF}' | '\u{3001}'..='\u{D7FF}'
+        | '\u{F900}'..='\u{FDCF}' | '\u{FDF0}'..='\u{FFFD}' | '\u{10000}'..='\u{EFFFF}')
+}
+
+// XML 1.0 production [4a], without ':'
+const fn is_xml_name_char(c: char) -> bool {
+    is_xml_name_start_char(c)
+        || matches!(c, '-' | '.' | '0'..='9' | '\u{B7}' | '\u{0300}'..='\u{036F}' | '\u{203F}'..='\u{2040}')
+}
+
 enum Stack<T> {
     Empty,
     Node(Box<(T, Stack<T>)>),
